@@ -257,10 +257,13 @@ def agree_spec(c, out, spec):
             missing = spec['missing_backbone'] if lig else spec['missing_any']
             must_report = c['enforce'] and r != 'irmsd_sql' and missing
             if got.startswith('ERR'):
-                if must_report or (c['enforce'] and r != 'irmsd_sql' and not spec['same_atoms']):
+                if must_report:
                     verdicts.append(True if got == 'ERR:ValueError' else f'{r}/{meth}: mismatch reported as {got}')
                 elif len(fit) == 0 or len(ev) == 0:
                     verdicts.append(True)          # nothing to superpose / evaluate: no value is defined
+                elif c['enforce'] and r != 'irmsd_sql' and not spec['same_atoms']:
+                    # records reordered (or residues renamed): the enforced check may refuse, explicitly
+                    verdicts.append(True if got == 'ERR:ValueError' else f'{r}/{meth}: mismatch reported as {got}')
                 else:
                     verdicts.append(f'{r}/{meth}: library raised {got}, the definition gives a value over {len(fit)}/{len(ev)} pairs')
                 continue
@@ -471,7 +474,7 @@ def malformed(rng, ref, dec):
 def cases(ctx):
     rng = ctx.rng
     out = []
-    n = ctx.scale(26, 400)
+    n = ctx.scale(44, 400)
     for k in range(n):
         for _ in range(20):
             ref, dec, kind = gen_pair(rng, big=ctx.thorough and k % 4 == 0)
@@ -485,11 +488,11 @@ def cases(ctx):
         if kind in ('del_dec', 'del_ref', 'del_both'):
             out.append(mk(dec.lines(), ref.lines(), cutoff, not enf, kind))
     # exact-boundary lattice
-    for k in range(ctx.scale(6, 40)):
+    for k in range(ctx.scale(8, 40)):
         ref, dec, cutoff = lattice_pair(rng)
         out.append(mk(dec.lines(), ref.lines(), cutoff, False, 'lattice'))
     # record permutations of the decoy / the reference, both enforcement settings
-    for k in range(ctx.scale(8, 80)):
+    for k in range(ctx.scale(16, 80)):
         for _ in range(20):
             ref, dec, _ = gen_pair(rng, kind=rng.choice(['jitter', 'rigid', 'del_dec']))
             cutoff = rng.choice(CUTOFFS)
@@ -528,7 +531,7 @@ def cases(ctx):
         ref, dec, kind = gen_pair(rng, kind=rng.choice(['jitter', 'del_dec']))
         out.append(mk(dec.lines(), ref.lines(), 10, False, 'check_false', check=False))
     # malformed stream
-    for k in range(ctx.scale(14, 120)):
+    for k in range(ctx.scale(24, 120)):
         ref, dec, _ = gen_pair(rng, kind=rng.choice(['jitter', 'del_dec']))
         dl, rl, kind = malformed(rng, ref, dec)
         out.append(mk(dl, rl, 10, rng.random() < 0.5, 'malformed_' + kind, wellformed=False))
